@@ -13,6 +13,7 @@ from lib import gen2, monitors, reflex, refparser, refeval
 import re
 
 ID = 'C07'
+TECHNIQUE = 'online reference-model monitor: real evaluator vs reference evaluator R2 (outcome, value, names, operation count) on type-directed programs'
 FN_REPR = re.compile(r"<function .*? at 0x[0-9a-f]+>|<[\w.]*Lambda object at 0x[0-9a-f]+>|<built-in (?:function|method) \w+(?: of [^<>]*)?>|<method '\w+' of '\w+' objects>|<class '[\w.]+'>")
 RULE = ('programs of 1-8 statements from the type-directed generator G2 (lib/gen2.py): every operator on the type combinations the typing admits, all statement forms, '
         'slices with negative/fractional bounds and steps, lambdas (dynamic scoping, extra/missing arguments, parameters shadowing host names and builtins) driven by '
